@@ -64,6 +64,7 @@ type Program struct {
 	mirror        string
 	loadNotes     []string
 	recvRules     []*RecvRule
+	specErrors    []string
 }
 
 func newProgram(repo, mirror string) *Program {
@@ -363,6 +364,23 @@ func (p *Program) resolveSpecType(d *Decls, pkg *Pkg, txt string) (types.Type, s
 		return nil, "(Array " + ks + " " + vs + ")"
 	}
 	if pkg != nil {
+		if strings.HasPrefix(txt, "[]") {
+			if et, _ := p.resolveSpecType(d, pkg, txt[2:]); et != nil && !isMathType(et) {
+				t := types.NewSlice(et)
+				return t, d.sortOf(t)
+			}
+		}
+		if strings.HasPrefix(txt, "*") {
+			if et, _ := p.resolveSpecType(d, pkg, txt[1:]); et != nil && !isMathType(et) {
+				t := types.NewPointer(et)
+				return t, d.sortOf(t)
+			}
+		}
+		if k := strings.Index(txt, "."); k > 0 && !strings.ContainsAny(txt, "[]*( ") {
+			if t := p.lookupType(pkg, txt); t != nil {
+				return t, d.sortOf(t)
+			}
+		}
 		if tv, err := types.Eval(p.fset, pkg.types, token.NoPos, txt); err == nil && tv.Type != nil {
 			return tv.Type, d.sortOf(tv.Type)
 		}
@@ -374,6 +392,7 @@ func (p *Program) resolveSpecType(d *Decls, pkg *Pkg, txt string) (types.Type, s
 			return tn.Type(), d.sortOf(tn.Type())
 		}
 	}
+	p.specErrors = append(p.specErrors, fmt.Sprintf("unresolved type %q in a specification", txt))
 	return tyMath, "Int"
 }
 
@@ -384,4 +403,15 @@ func (p *Program) prepareGhosts(d *Decls) {
 		t, s := p.resolveSpecType(d, pkg, g.Type)
 		p.ghosts[name] = &ghostInfo{sort: s, ty: t, text: g.Type}
 	}
+}
+
+// sortLessIsOrder: a sort.Interface type declared (in a type block, opt
+// "sort-less element-order") to order by element value.
+func (p *Program) sortLessIsOrder(t types.Type) bool {
+	n, ok := t.(*types.Named)
+	if !ok || n.Obj().Pkg() == nil {
+		return false
+	}
+	ts := p.typeSpecs[n.Obj().Pkg().Path()+"."+n.Obj().Name()]
+	return ts != nil && ts.GuardedBy["$sort-less"] == "element-order"
 }
